@@ -7,7 +7,6 @@ FINISH = dict(level="model_checking",
                    "size/offset sets; G: one script per transition of the TLC graph replayed on the real printbuf; "
                    "V: seeded random/boundary histories; every recorded call validated by TLC against Bytes")
 MUTS = ["append_noguard", "append_no_nul_room", "append_no_nul", "memset_no_gapfill", "memset_bpos_always"]
-SRC = ["vh.c", "vhrt.c", "vh_c19.c"]
 
 
 def diag_of(rec, ex):
@@ -41,7 +40,7 @@ def run(ck):
     ck.mc("MCPrintBuf", "C19_mc_t.cfg" if thorough else "C19_mc.cfg", workers=16 if thorough else 8, xmx="16g", timeout=3000)
     for m in MUTS:
         ck.mc_must_fail("MCPrintBuf", "C19_asfound_%s.cfg" % m, workers=4, timeout=600)
-    exe = vlib.build("san", SRC, "vh")
+    exe = vlib.build("san", vlib.harness_sources(), "vh")
     # ---- G
     hists, r = vlib.tlc_export_edges("GPrintBuf", "C19_g_t.cfg" if thorough else "C19_g.cfg", timeout=1800)
     ck.add_tlc(r)
@@ -52,12 +51,12 @@ def run(ck):
     tp = os.path.join(ck.dir, "g.ndjson")
     deaths = vlib.run_executions(exe, lambda st: ["c19", "replay", sp, st], len(scripts), tp)
     ck.extra["g_scripts"] = len(scripts)
-    vlib.conformance(ck, "G:edge-cover-replay", "TracePrintBuf", "C19_trace.cfg", tp, deaths, diag_of, min_events=len(scripts))
+    vlib.conformance(ck, "G:edge-cover-replay", "TracePrintBuf", "trace.cfg", tp, deaths, diag_of, min_events=len(scripts))
     # ---- V
     tp = os.path.join(ck.dir, "v.ndjson")
     n = 20000 if thorough else 3000
     deaths = vlib.run_executions(exe, lambda st: ["c19", "drive", st, n, 40], n, tp)
-    vlib.conformance(ck, "V:random-histories", "TracePrintBuf", "C19_trace.cfg", tp, deaths, diag_of, min_events=n)
+    vlib.conformance(ck, "V:random-histories", "TracePrintBuf", "trace.cfg", tp, deaths, diag_of, min_events=n)
 
 
 def replay(path):
@@ -67,7 +66,7 @@ def replay(path):
     tp = path + ".ndjson"
     with open(tp, "w") as f:
         f.write("\n".join(x for x in d["trace"] if x.startswith("{")) + "\n")
-    r = vlib.validate_traces("TracePrintBuf", "C19_trace.cfg", [tp])[0]
+    r = vlib.validate_traces("TracePrintBuf", "trace.cfg", [tp])[0]
     os.unlink(tp)
     print("trace %s" % ("accepted" if r["accepted"] else "rejected at line(s) %s" % r["lines"]))
     return 0 if r["accepted"] else 1
